@@ -859,6 +859,11 @@ func ParseBlockStmt(p *ParserZH, blockIndent int) *syntax.StmtBlock {
 		bStmt.Children = append(bStmt.Children, stmt)
 	})
 
+	// a block consists of at least one statement
+	if len(bStmt.Children) == 0 {
+		panic(p.getInvalidSyntaxPeek())
+	}
+
 	return bStmt
 }
 
@@ -968,6 +973,10 @@ func ParseBranchStmt(p *ParserZH) *syntax.BranchStmt {
 			// only one else-branch is accepted
 			return stmt
 		}
+	}
+	// reach EOF before the (required) if-branch has been parsed
+	if hState == stateInit {
+		panic(p.getInvalidSyntaxPeek())
 	}
 	return stmt
 }
